@@ -22,6 +22,15 @@ Oracle (independent of Lean and of the harness's tables)
     of the immediate evaluation with the same parameters — on the actor, through
     `PPO.evaluate_actions`, and on the exact tensors `PPO.learn` / `IPPO.learn` hand to
     `action_log_prob`.
+
+Source translation (`pre_gate`, before the Lean gate): `py2lean_dist.py` executes `agilerl/networks/distributions.py`
+    and `StochasticActor.{__init__, forward, action_log_prob, action_entropy, scale_action}` of the tree under test
+    symbolically (source text only), once per action-space kind, and rewrites `lean/Gen/DistGen.lean`;
+    `Proofs/DistGenEq.lean` proves the generated definitions equal to the composition functions of `Model/Dist.lean`
+    and `Props/C16.lean` restates the theorems over them (`C16_source_translation_*`).  If the translator rejects the
+    source or those proofs stop checking, that is a gate problem naming the broken equality; the suites below then
+    supply the failing input (tried: `.sum` dropped for Box, sign of the squash correction, swapped `torch.where`
+    branches, `is` → `is not`, clamp / rescale constants, `exp(0.5 * log_std)` — each gives oracle violations with replays).
 """
 from __future__ import annotations
 
@@ -1308,6 +1317,15 @@ def judge(chk: Check, case, n_draws, diffs, problems):
     else:
         chk.violation("implementation and Dist model disagree: " + d2[0]["what"]
                       + "; the property oracle holds on this case and its shrinks", replay, no_input=True)
+
+
+def pre_gate(chk: Check) -> None:
+    """Regenerate lean/Gen/DistGen.lean from the source text of the tree under test (before the Lean gate) and re-check
+    `generated = model` (Proofs/DistGenEq.lean) and the theorems over the generated definitions (Props/C16.lean)."""
+    import common
+    import py2lean_dist
+    common.translation_gate(chk, py2lean_dist, "Gen/DistGen.lean", ["Gen.DistGen", "Proofs.DistGenEq", "Props.C16"],
+                            "log-prob / entropy / masking / squashing formulas of distributions.py and StochasticActor")
 
 
 def run(chk: Check) -> None:
